@@ -96,18 +96,56 @@ def rule_g2(repo, col):
                        construct="add_or readonly forwarding", function="LogicFormula.add_or")
 
 
+def _abs_image_of(e):
+    """X for set(map(abs, X)) / {abs(v) for v in X} / set(abs(v) for v in X); None otherwise"""
+    if isinstance(e, ast.Call) and isinstance(e.func, ast.Name) and e.func.id == "set" and len(e.args) == 1:
+        a = e.args[0]
+        if isinstance(a, ast.Call) and isinstance(a.func, ast.Name) and a.func.id == "map" and len(a.args) == 2 and norm(a.args[0]) == "abs":
+            return norm(a.args[1]).replace(" ", "")
+        e = a if isinstance(a, (ast.GeneratorExp, ast.ListComp)) else e
+    if isinstance(e, (ast.SetComp, ast.GeneratorExp, ast.ListComp)) and len(e.generators) == 1 and not e.generators[0].ifs and isinstance(e.generators[0].target, ast.Name):
+        v = e.generators[0].target.id
+        if norm(e.elt).replace(" ", "") == "abs(%s)" % v:
+            return norm(e.generators[0].iter).replace(" ", "")
+    return None
+
+
+def _set_of(e):
+    """X for set(X) / {v for v in X}; None otherwise"""
+    if isinstance(e, ast.Call) and isinstance(e.func, ast.Name) and e.func.id == "set" and len(e.args) == 1 and not isinstance(e.args[0], (ast.GeneratorExp, ast.ListComp)):
+        return norm(e.args[0]).replace(" ", "")
+    if isinstance(e, ast.SetComp) and len(e.generators) == 1 and not e.generators[0].ifs and isinstance(e.generators[0].target, ast.Name) and norm(e.elt) == e.generators[0].target.id:
+        return norm(e.generators[0].iter).replace(" ", "")
+    return None
+
+
 def _is_complement_test(src):
-    """len(set(X)) > len(set(map(abs, X))) for one X"""
+    """len(set(X)) > len(set(map(abs, X))) for one X (the two sets may be written as comprehensions)"""
     try:
         e = ast.parse(src, mode="eval").body
     except SyntaxError:
         return False
-    if not (isinstance(e, ast.Compare) and len(e.ops) == 1 and isinstance(e.ops[0], ast.Gt)):
+    if not (isinstance(e, ast.Compare) and len(e.ops) == 1 and isinstance(e.ops[0], (ast.Gt, ast.Lt))):
         return False
-    l, r = norm(e.left).replace(" ", ""), norm(e.comparators[0]).replace(" ", "")
-    ml = re.match(r"^len\(set\((.*)\)\)$", l)
-    mr = re.match(r"^len\(set\(map\(abs,(.*)\)\)\)$", r)
-    return bool(ml and mr and ml.group(1) == mr.group(1))
+    l, r = (e.left, e.comparators[0]) if isinstance(e.ops[0], ast.Gt) else (e.comparators[0], e.left)
+    if not all(isinstance(x, ast.Call) and isinstance(x.func, ast.Name) and x.func.id == "len" and len(x.args) == 1 for x in (l, r)):
+        return False
+    a, b = _set_of(l.args[0]), _abs_image_of(r.args[0])
+    return a is not None and a == b
+
+
+def _neutral_filters(fnode, fname="f"):
+    """nodes that drop exactly the neutral element from the content: filter(lambda x: x != f, C) or (x for x in C if x != f) / [..]"""
+    out = []
+    for n in walk_no_nested(fnode):
+        if isinstance(n, ast.Call) and dotted(n.func) == "filter" and len(n.args) == 2 and isinstance(n.args[0], ast.Lambda) and len(n.args[0].args.args) == 1:
+            v = n.args[0].args.args[0].arg
+            out.append((n, norm(n.args[0].body).replace(" ", "") in ("%s!=%s" % (v, fname), "%s!=%s" % (fname, v))))
+        elif isinstance(n, (ast.GeneratorExp, ast.ListComp)) and len(n.generators) == 1 and isinstance(n.generators[0].target, ast.Name) and n.generators[0].ifs \
+                and norm(n.elt) == n.generators[0].target.id and any(fname in [y.id for y in ast.walk(c) if isinstance(y, ast.Name)] for c in n.generators[0].ifs):
+            v = n.generators[0].target.id
+            out.append((n, len(n.generators[0].ifs) == 1 and norm(n.generators[0].ifs[0]).replace(" ", "") in ("%s!=%s" % (v, fname), "%s!=%s" % (fname, v))))
+    return out
 
 
 def rule_g3_g6(repo, col):
@@ -148,10 +186,10 @@ def rule_g3_g6(repo, col):
         if v == "t":
             n_t += 1
             ok = has_like(p, lambda s: s.startswith("t in "), True) or has_like(p, _is_complement_test, True)
-            if not ok and has_like(p, lambda s: "map(abs" in s and "len(" in s, True):
+            if not ok and has_like(p, lambda s: "abs" in s and "len(" in s, True):
                 fail_once("G6", last, "the absorbing constant is returned after a test that is not the complement test len(set(X)) > len(set(map(abs, X))) on one collection X (%s): "
                           "counting X itself instead of set(X) takes a repeated child for a complementary pair - with keep_duplicates and(a, a) becomes FALSE"
-                          % [s for s, t, _ in p.conds if "map(abs" in s][0][:90], "return t after a complement test on the raw content")
+                          % [s for s, t, _ in p.conds if "abs" in s and "len(" in s][0][:90], "return t after a complement test on the raw content")
                 continue
             if not ok:
                 fail_once("G6", last, "the absorbing constant is returned on a path that established neither `t in content` nor the complement test "
@@ -204,14 +242,13 @@ def rule_g3_g6(repo, col):
         if not any(r == rule for r, _ in reported):
             col.ok(rule, m, f.node, what, construct="_add_compound decision table: %s" % rule, function="LogicFormula._add_compound")
     # neutral-element filter uses f
-    filt = [n for n in walk_no_nested(f.node) if isinstance(n, ast.Call) and dotted(n.func) == "filter"]
-    okf = len(filt) == 1 and isinstance(filt[0].args[0], ast.Lambda) and norm(filt[0].args[0].body) in ("x != f", "f != x")
-    col.decide("G6", m, filt[0] if filt else f.node, okf, "neutral elements are removed with x != f",
+    filt = _neutral_filters(f.node)
+    okf = len(filt) == 1 and filt[0][1]
+    col.decide("G6", m, filt[0][0] if filt else f.node, okf, "neutral elements are removed with x != f",
                "the content must be filtered with `x != f` (drop the neutral element only)", **({} if filt else {"construct": "filter", "function": "LogicFormula._add_compound"}))
     # order: absorbing test before the filter
-    src = [norm(s) for s in walk_no_nested(f.node) if isinstance(s, ast.If)]
-    body_src = norm(f.node)
-    col.decide("G6", m, f.node, 0 < body_src.find("if t in content") < body_src.find("filter("), "absorbing element is tested before neutral elements are filtered",
+    absorb = [n for n in walk_no_nested(f.node) if isinstance(n, ast.If) and norm(n.test).replace(" ", "") in ("tincontent",)]
+    col.decide("G6", m, f.node, bool(absorb) and bool(filt) and absorb[0].lineno < filt[0][0].lineno, "absorbing element is tested before neutral elements are filtered",
                "the absorbing-element test must precede the filtering of neutral elements", construct="_add_compound: test order", function="LogicFormula._add_compound")
 
 
